@@ -268,7 +268,8 @@ def check(ctx):
     # the key calculator: the function built inside class KeyCalc that maps a row to the key string
     cands = [f for f in repo.functions.values() if not isinstance(f.node, ast.Lambda) and f.parent is not None
              and getattr(f.parent, 'cls', None) is kcls and len(f.all_params) == 1]
-    cands = [f for f in cands if any(isinstance(n, ast.For) for n in ast.walk(f.node))]
+    cands = [f for f in cands if any(isinstance(n, ast.For) for n in ast.walk(f.node)) or
+             any(isinstance(n, ast.For) for n in ast.walk(ctx.N(f).node))]        # (the loop may live in a helper the function calls)
     if not cands:
         # the same function at module level, handed out as functools.partial(f, <bound arguments>): its last parameter is the row
         for meth in kcls.methods.values():
